@@ -209,3 +209,13 @@ package tabula
 //@     decreases gapInLines - i
 //@   loop 4:
 //@     invariant currentCol >= 0
+
+// ---- C02: the inspection helpers reach the PDF reader only when there is one (other formats: an error) ----
+//@ func (*Extractor) IsCharacterLevel results (r, err)
+//@   property C02
+//@   flags callsites
+//@   callsite GetPage(k) requires pdf_reader_present: !isnil(e.reader)
+//@ func (*Extractor) IsMultiColumn results (r, err)
+//@   property C02
+//@   flags callsites
+//@   callsite GetPage(k) requires pdf_reader_present: !isnil(e.reader)
